@@ -105,6 +105,61 @@ theorem copy_iff_not_varied (stage : Nat) :
     varyPosHand, varyShapeHand, decide_eq_true_eq, decide_eq_false_iff_not, ge_iff_le]
   first | omega | grind
 
+/-! ### 1b. the regenerated per-source acceptance decision -/
+
+/-- **reject_iff**: for EVERY image shape `(n0, n1)` — square or not — and every pixel, the regenerated test lets a row
+    through exactly when its rounded pixel is a valid index of the image (row index against the number of rows, column
+    index against the number of columns), the image and the rms map are finite there and there is a beam -/
+theorem reject_iff (x y : Int) (n0 n1 d r b : Nat) :
+    rejectSrc x y n0 n1 d r b = false ↔
+      (0 ≤ x ∧ x < (n0 : Int) ∧ 0 ≤ y ∧ y < (n1 : Int) ∧ d ≠ 0 ∧ r ≠ 0 ∧ b = 0) := by
+  simp only [rejectSrc, rejectSrcHand, decide_eq_false_iff_not, Bool.not_eq_false', Bool.and_eq_true, decide_eq_true_eq,
+    and_false, false_or, or_false, false_and, and_true, true_and, not_not, ne_eq]
+  first | omega | grind
+
+/-- a row that is let through never indexes outside the arrays: `data[x, y]`, `rmsimg[x, y]` are legal for it -/
+theorem accepted_pixel_is_valid_index (x y : Int) (n0 n1 d r b : Nat) (h : rejectSrc x y n0 n1 d r b = false) :
+    0 ≤ x ∧ x < (n0 : Int) ∧ 0 ≤ y ∧ y < (n1 : Int) := by
+  have := (reject_iff x y n0 n1 d r b).mp h
+  omega
+
+/-- **accepted_eq_regenerated**: the model's acceptance filter `accepted` (on which every theorem of §2–§5 rests) IS the
+    regenerated decision, for every image and every row: with `finite = data finite ∧ rms finite` and a beam present -/
+theorem accepted_eq_regenerated {α : Type} (n0 n1 : Nat) (dfin rfin : Int → Int → Bool) (s : Src α) :
+    accepted ⟨n0, n1, fun x y => dfin x y && rfin x y⟩ s
+      = !rejectSrc s.x s.y n0 n1 (dfin s.x s.y).toNat (rfin s.x s.y).toNat 0 := by
+  have h := reject_iff s.x s.y n0 n1 (dfin s.x s.y).toNat (rfin s.x s.y).toNat 0
+  cases hr : rejectSrc s.x s.y n0 n1 (dfin s.x s.y).toNat (rfin s.x s.y).toNat 0
+  · obtain ⟨h1, h2, h3, h4, h5, h6, _⟩ := h.mp hr
+    have d1 : dfin s.x s.y = true := by cases hd : dfin s.x s.y <;> simp [hd] at h5 ⊢
+    have r1 : rfin s.x s.y = true := by cases hd : rfin s.x s.y <;> simp [hd] at h6 ⊢
+    simp [accepted, h1, h2, h3, h4, d1, r1]
+  · cases ha : accepted ⟨n0, n1, fun x y => dfin x y && rfin x y⟩ s
+    · rfl
+    · exfalso
+      obtain ⟨a1, a2, a3, a4, a5⟩ := accepted_range _ s ha
+      simp only [Bool.and_eq_true] at a5
+      have : rejectSrc s.x s.y n0 n1 (dfin s.x s.y).toNat (rfin s.x s.y).toNat 0 = false :=
+        h.mpr ⟨a1, a2, a3, a4, by simp [a5.1], by simp [a5.2], rfl⟩
+      rw [hr] at this
+      exact Bool.noConfusion this
+
+/-- without a beam the row is always skipped -/
+theorem no_beam_rejected (x y : Int) (n0 n1 d r b : Nat) (hb : b ≠ 0) : rejectSrc x y n0 n1 d r b = true := by
+  cases h : rejectSrc x y n0 n1 d r b
+  · exact absurd ((reject_iff x y n0 n1 d r b).mp h).2.2.2.2.2.2 hb
+  · rfl
+
+/-- non-vacuity on a landscape image (60 rows × 110 columns): row 65 is off the image, column 65 is on it -/
+example : rejectSrc 65 50 60 110 1 1 0 = true ∧ rejectSrc 50 65 60 110 1 1 0 = false ∧ rejectSrc 50 65 60 110 0 1 0 = true := by
+  decide
+
+/-- negation witness for the slip "both indices against the number of columns" (seeded C05-11): on the landscape image
+    it lets row 65 of 60 through (→ IndexError), on the portrait one it skips the valid row 65 of 110 -/
+theorem both_against_columns_is_wrong :
+    rejectBothAgainstColumns 65 50 60 110 1 1 0 = false ∧ rejectBothAgainstColumns 65 50 110 60 1 1 0 = true := by
+  decide
+
 section island
 variable {α : Type} [R α] (oi : Int → α) (nan : α) (hd : Box → Par α → Bool)
   (np : Box → List (Comp α) → Nat) (opt : Box → List (Comp α) → List (Par α))
